@@ -29,7 +29,7 @@ def bounds(tier):
 
 
 def candidates(name):
-    lo = progs.load('calls' if name == 'twin' else name)
+    lo = progs.load('calls' if name in ('twin', 'twin2') else name)
     c = [('line', ln) for ln in progs.executable_lines(lo.code)]
     c.append(('line', 9999))
     c += [('fn', f) for f in progs.function_names(lo.code)]
@@ -39,7 +39,7 @@ def candidates(name):
 
 def cases(tier, seed):
     out = []
-    names = progs.names() + ['twin']
+    names = progs.names() + ['twin', 'twin2']
     for name in progs.names():
         out.append({'k': 'conform', 'prog': name})
     for when in (-1, 0, 1, 3):
@@ -222,17 +222,23 @@ def run_case(ctx, desc):
         return conform(ctx, desc)
     name = desc['prog']
     outbuf = []
-    if name == 'twin':
+    if name in ('twin', 'twin2'):
         a = progs.load('calls', 'app')
         b = progs.load('calls', 'other')
         src, _ = progs.CORPUS['calls']
         c_ns, c_path = rig.load_program('calls_b', src.replace("out('calls', r)", 'pass'), 'app')
-        paths = {a.path, b.path, c_path}
-        basename = 'calls.py'
-        match_paths = {a.path, b.path}
+        d_ns, d_path = rig.load_program('my_calls', src.replace("out('calls', r)", 'pass'), 'app')
+        paths = {a.path, b.path, c_path, d_path}
+        if name == 'twin':
+            basename = 'calls.py'
+            match_paths = {a.path, b.path}
+        else:
+            # tracepoints for my_calls.py must not act in calls.py (whose name is a suffix of it), nor the other way round
+            basename = 'my_calls.py'
+            match_paths = {d_path}
 
         def main():
-            return (a.ns['main'](), b.ns['main'](), c_ns['main']())
+            return (a.ns['main'](), b.ns['main'](), c_ns['main'](), d_ns['main']())
     else:
         lo = progs.load(name)
         paths = {lo.path}
